@@ -30,6 +30,8 @@ def write_evidence(prop: str, tier: str, seed: int, agg: dict, wall: float, n_vi
                    n_planned: int) -> None:
     from .registry import CHECKS
 
+    if os.environ.get("SIMRF_NO_EVIDENCE"):  # mutant sweeps against a scratch tree must not rewrite evidence
+        return
     c = CHECKS[prop]
     runs = max(1, agg["runs"])
     ev = {
